@@ -257,9 +257,13 @@ pub struct PatIdent { pub ident: Ident, pub rest: Node }
 pub enum Pat { Ident(PatIdent), Other(Node) }
 
 /// `syn::Expr` with exactly the variants the repository distinguishes.
+pub enum MacroDelimiter { Paren(Node), Brace(Node), Bracket(Node) }
+pub struct Macro { pub delimiter: MacroDelimiter, pub rest: Node }
+pub struct ExprMacro { pub mac: Macro, pub rest: Node }
 pub enum Expr {
     Let(ExprLet),
     Block(Node),
+    Macro(ExprMacro),
     Assign(Node), AssignOp(Node), Binary(Node), Box(Node), Break(Node), Cast(Node), Closure(Node),
     Range(Node), Reference(Node), Return(Node), Type(Node), Unary(Node), Yield(Node),
     Other(Node),
